@@ -1,7 +1,11 @@
 #![allow(unused, non_snake_case)]
 #[cfg(kani)]
+mod support;
+#[cfg(kani)]
 mod c07_params;
 #[cfg(kani)]
 mod c20_format;
 #[cfg(kani)]
 mod c01_router;
+#[cfg(kani)]
+mod c03_response;
